@@ -33,7 +33,7 @@ func c17AppBody(p c17AppParams) func(x *vsched.Exec) {
 			w.send(0, smf.Assoc(w.nextSeq(0), w.peerIP(0)))
 			w.send(0, smf.Est(w.nextSeq(0), w.peerIP(0), true, 0x10, w.peerIP(0), estOps(1)...))
 		})
-		for _, m := range w.replies()[0] {
+		for _, m := range w.repliesWait(0, 2)[0] {
 			if _, _, ok := m.FSEID(); ok && m.Type == smf.MEstRsp {
 				n++
 			}
